@@ -333,6 +333,17 @@ class World:
         with io.open(path, 'wb') as fh:
             fh.write(data)
 
+    def put_keep_times(self, rel, data):
+        """Rewrite a file in place and give it its previous timestamps back
+        (what `rsync -t`, `tar -x`, `cp -p` or a coarse file-system clock do):
+        contents change, (mtime, size) need not."""
+        path = self.p(rel)
+        st = os.stat(path) if os.path.isfile(path) else None
+        self.put(rel, data)
+        if st is not None:
+            os.utime(path, ns=(st.st_atime_ns, st.st_mtime_ns))
+        return st is not None and st.st_size == len(data)
+
     def mkdir(self, rel):
         os.makedirs(self.p(rel), exist_ok=True)
 
